@@ -29,7 +29,8 @@ LEVEL_TEXT = ("All seven placers and both annealing kernels are run on "
               "returned placement is re-checked from first principles, only "
               "the two documented errors are accepted, success is demanded "
               "on the documented easy class, annealing progress is bounded in "
-              "kernel calls and the native kernel runs under sanitizers.")
+              "kernel calls and the native kernel runs under sanitizers."
+              ' A share of the random and annealing placements is driven by a random.Random whose primitives return the ends of their ranges.')
 LEVEL_NOTE = ("Trusted: the harness's capacity arithmetic and union-find over "
               "same-chip groups. A clean sanitizer run is not memory safety; "
               "CPython and libffi are uninstrumented (leak checking off).")
